@@ -257,6 +257,15 @@ func opProof(_ *HState, a Event) Event {
 		e["withfilter"] = msgEvent(m2, i2)
 		m3, i3 := bloom.NewMerkleBlock(bchutil.NewBlock(blk), mkFilter())
 		e["bloom"] = msgEvent(m3, i3)
+		// a message that was handed out stays what it was, whatever is built afterwards
+		for k, mm := range []*wire.MsgMerkleBlock{m1, m2, m3} {
+			mm := mm
+			retainFn("Proof", []string{"txnset", "withfilter", "bloom"}[k], func() []byte {
+				var b bytes.Buffer
+				mm.BchEncode(&b, wire.ProtocolVersion, wire.BaseEncoding)
+				return b.Bytes()
+			})
+		}
 		pb := merkleblock.NewMerkleBlockFromMsg(*m1)
 		root := pb.ExtractMatches()
 		x := map[string]interface{}{"ok": root != nil, "root": []int{}, "matches": hashesInts(pb.GetMatches()), "items": []int{}}
@@ -360,6 +369,15 @@ func runC11(c *Ctx) {
 			}
 		}
 		c.Call(Event{"op": "Proof", "n": nn, "matched": []int{}, "salt": int(r.Int31n(50000)), "desc": desc, "order": ord, "fitems": fit, "flags": 1 + k%2})
+	}
+	// block sizes around and above 1024 / 2048 that are not multiples of 2, 4, 8 (leaf hashing or level building split
+	// between several workers leaves a remainder; the last leaves are chosen)
+	for _, n := range []int{1023, 1027, 2053} {
+		if !c.Thorough() && n != 1027 {
+			continue
+		}
+		proof(n, []int{0, n / 2, n - 3, n - 2, n - 1})
+		proof(n, []int{n - 1})
 	}
 	// larger random blocks
 	for k := 0; k < c.Pick(3, 30); k++ {
